@@ -113,8 +113,8 @@ CHECKS = {
         design="DESIGN.md §4 C11",
     ),
     "C20": dict(
-        rules="R20.1, R20.3-R20.19, R12.3, R20.2",
-        what="every loop that re-queues deferred work has a per-iteration counter compared with a constant bound that leaves the loop; type-checker deferral limited by pass_num < last_pass; partial arithmetic operators of the constant folders guarded against every failure precondition; placeholder-triggered deferrals are conditional on not being in the final iteration (defer() asserts it); constant-valued index variables are range-checked against len() of the subscripted sequence; the guard before `assert add_symbol(...)` in push_type_args recognises every type-parameter node kind and rejected parameters are not returned; no branch reports an `internal error` message as its planned outcome; a saved list index accounts for later deletions; pop() on a set built in the function is dominated by a non-emptiness test; names from configuration are not unchecked keys of the error-code registry; Instance asserts after is_subtype come after the TypeVar/union/Any cases; Instance assertions on the content of an UnpackType follow the TypeVarTuple case (sibling majority, one tabled site; R20.18); checkpattern never asserts that the node of a captured name is a Var (R20.19)",
+        rules="R20.1, R20.3-R20.20, R12.3, R20.2",
+        what="every loop that re-queues deferred work has a per-iteration counter compared with a constant bound that leaves the loop; type-checker deferral limited by pass_num < last_pass; partial arithmetic operators of the constant folders guarded against every failure precondition; placeholder-triggered deferrals are conditional on not being in the final iteration (defer() asserts it); constant-valued index variables are range-checked against len() of the subscripted sequence; the guard before `assert add_symbol(...)` in push_type_args recognises every type-parameter node kind and rejected parameters are not returned; no branch reports an `internal error` message as its planned outcome; a saved list index accounts for later deletions; pop() on a set built in the function is dominated by a non-emptiness test; names from configuration are not unchecked keys of the error-code registry; Instance asserts after is_subtype come after the TypeVar/union/Any cases; Instance assertions on the content of an UnpackType follow the TypeVarTuple case (sibling majority, one tabled site; R20.18); checkpattern never asserts that the node of a captured name is a Var (R20.19); the target-count check of a multiple assignment never returns True after reporting an error (R20.20)",
         quant="input programs",
         technique="CFG cycle/must-pass queries for counter-bounded fix-points; guard-chain analysis of partial operators",
         note="Absence of crashes for all inputs is not decided; R20.2 is an inventory (evidence only).",
